@@ -266,8 +266,23 @@ pub struct CircCase {
 }
 
 fn check_measure<G: GraphLike>(c: &csim::Circ, backend: &str, obs: &mut Obs) -> Result<(), String> {
+    for (simplify, postselect) in [(false, false), (true, false), (false, true), (true, true)] {
+        check_measure_mode::<G>(c, &format!("{backend} (simplify={simplify}, postselect={postselect})"), simplify, postselect, obs)?;
+    }
+    Ok(())
+}
+
+fn check_measure_mode<G: GraphLike>(
+    c: &csim::Circ,
+    backend: &str,
+    simplify: bool,
+    postselect: bool,
+    obs: &mut Obs,
+) -> Result<(), String> {
     let qc = c.to_quizx();
-    let g: G = guarded(&format!("{backend}: to_graph"), || qc.to_graph())?;
+    let g: G = guarded(&format!("{backend}: to_graph_with_options"), || {
+        qc.to_graph_with_options(simplify, postselect)
+    })?;
     let mvars = c.measurement_vars();
     // all variables used
     let mut used: BTreeSet<u32> = BTreeSet::new();
